@@ -1,4 +1,5 @@
 """HTTP parser family: C06, C07, C08."""
+from . import srcgen
 import os
 
 from . import core
@@ -46,9 +47,9 @@ BODY_RUN = {"harness": "hbody", "driver": "httpdrv", "fields": None, "corpus": "
             "quick": {"n": 400, "shards": 4}, "thorough": {"n": 6000, "shards": 16}}
 
 # the real client path (ClientConn.Do -> engine -> client parser -> ClientProcessor -> callback) against a raw loopback
-# server: pipelined HEAD / GET scripts, 200 / 204 / 304, Content-Length / chunked; the model parser runs over the bytes the
-# server sent with the same request context (Cfg.head)
-CLIENT_RUN = {"harness": "hclient", "driver": "httpdrv", "fields": ["got"], "corpus": "httpclient",
+# server: pipelined GET scripts (and a few with HEAD: known finding), 200 / 204 / 304, Content-Length / chunked; the model
+# parser runs over the bytes the server sent: responses delivered before the first parse error, and whether one occurred
+CLIENT_RUN = {"harness": "hclient", "driver": "httpdrv", "fields": ["got", "err"], "corpus": "httpclient",
               "quick": {"n": 24, "shards": 3, "timeout": 600}, "thorough": {"n": 400, "shards": 8, "timeout": 1800}}
 
 PROPS = {
@@ -68,8 +69,8 @@ PROPS = {
                     "neighbours of the agreed domain are classified and counted, not judged",
             "technique": "Lean 4 proof (compositional, per grammar production, on the byte-at-a-time spec; lifted to the Go-shaped loop in "
                          "any segmentation by the C06 refinement) + three-way differential correspondence"},
-        "lean": ["NbioVerif.Properties.C07", "NbioVerif.Lemmas.HttpTables"], "drivers": ["httpdrv"], "harness": ["hhttp", "hhttp7", "hbody", "hclient"],
-        "facts": [http_tables],
+        "lean": ["NbioVerif.Properties.C07", "NbioVerif.Lemmas.HttpTables", srcgen.BRIDGE_HTTP], "drivers": ["httpdrv"], "harness": ["hhttp", "hhttp7", "hbody", "hclient"],
+        "facts": [http_tables, srcgen.src_facts],
         "runs": [C07_RUN, BODY_RUN, CLIENT_RUN],
         "oracles": ["c07-"],
         "rule": "case = 1..3 pipelined messages drawn from the Msg grammar (or one neighbour of the agreed domain) + a segmentation; distinct "
@@ -79,8 +80,8 @@ PROPS = {
                         "the model's own parseHTTPVersion is cross-checked against the recorded verdicts",
                         "the reference parser is not modelled: agreement of reqSpec/respSpec with net/http is sampled on every case",
                         "header names ASCII (strings.ToLower / CanonicalHeaderKey are modelled bytewise)",
-                        "client: which responses answer a HEAD request is request context, an input of the model (Cfg.head), taken "
-                        "from the request script; the message-level theorems assume no HEAD outstanding, c07_response_without_body covers the rest"],
+                        "client: the request a response answers is not an input of the parser, hence not of the model; replies to HEAD that "
+                        "announce a body are the known finding HTTP-CLIENT-HEAD (reference called with the request, nbhttp not)"],
     },
     "C06": {
         "manifest": {
@@ -89,8 +90,8 @@ PROPS = {
                     "generated (message, segmentation) pairs, and a whole-vs-segmented oracle runs on the implementation alone",
             "note": "model fidelity is sampled (differential run on every check); ReadLimit entry test excluded by hypothesis",
             "technique": "Lean 4 proof (refinement of the Go-shaped index loop to a byte-at-a-time spec) + differential correspondence"},
-        "lean": ["NbioVerif.Properties.C06", "NbioVerif.Lemmas.HttpTables"], "drivers": ["httpdrv"], "harness": ["hhttp"],
-        "facts": [http_tables],
+        "lean": ["NbioVerif.Properties.C06", "NbioVerif.Lemmas.HttpTables", srcgen.BRIDGE_HTTP], "drivers": ["httpdrv"], "harness": ["hhttp"],
+        "facts": [http_tables, srcgen.src_facts],
         "runs": [HTTP_RUN],
         "oracles": ["c06-"],
         "rule": "case = (message sequence incl. mutated neighbours, segmentation); distinct by hash of (config class, parser-state "
@@ -105,8 +106,8 @@ PROPS = {
                     "<= max(ReadLimit, one read); differential correspondence plus panic/bound/after-error oracles on arbitrary and mutated bytes",
             "note": "model fidelity sampled; panics observed through the parser's recover log line; engine glue after an error modelled as CloseAndClean",
             "technique": "Lean 4 proof (invariants by induction over the input) + differential correspondence"},
-        "lean": ["NbioVerif.Properties.C08", "NbioVerif.Lemmas.HttpTables"], "drivers": ["httpdrv"], "harness": ["hhttp", "hhttpe", "hbody"],
-        "facts": [http_tables],
+        "lean": ["NbioVerif.Properties.C08", "NbioVerif.Lemmas.HttpTables", srcgen.BRIDGE_HTTP], "drivers": ["httpdrv"], "harness": ["hhttp", "hhttpe", "hbody"],
+        "facts": [http_tables, srcgen.src_facts],
         "cs": HTTP_CS,
         "runs": [HTTP_RUN, ENGINE_RUN, BODY_RUN],
         "oracles": ["c08-"],
